@@ -71,6 +71,60 @@ func runeConstsCompared(fns []*ssa.Function, ops ...token.Token) map[int64]bool 
 
 func c11() []*Ob {
 	return []*Ob{
+		{Prop: "C11", ID: "C11.8", Engine: "TABLE(loop range)", Floor: 1,
+			Desc: "the table that says which ASCII bytes need lower-casing covers the whole alphabet: the constant-bound loop of initIsUpperASCII marks exactly 'A'..'Z' inclusive (the text tokenizer skips lower-casing an all-ASCII word with no marked byte; the query side lower-cases everything) — with the last letter left out, a word whose only capital is Z is indexed as written and can no longer be found. The rule applies while the table is filled by one counting loop with constant bounds",
+			Check: func(c *Ctx) {
+				fn := c.Fn("tokenizer.initIsUpperASCII")
+				if fn == nil {
+					return
+				}
+				lo, hi, ok := constLoopRange(fn)
+				if !ok {
+					c.Site(fn.Pos(), "initIsUpperASCII is not a single counting loop with constant bounds: this rule does not apply")
+					return
+				}
+				if lo == 'A' && hi == 'Z' {
+					c.Site(fn.Pos(), "isUpperASCII is set for 'A'..'Z'")
+				} else {
+					c.Violation("table:isUpperASCII:range", fn.Pos(), "initIsUpperASCII marks the bytes %d..%d, not 'A'(65)..'Z'(90): an ASCII capital outside the marked range is not lower-cased on the index side", lo, hi)
+				}
+			}},
+		{Prop: "C11", ID: "C11.9", Engine: "PROV", Floor: 1,
+			Desc: "a quoted literal is unquoted by the rules of its own quote: every strconv.UnquoteChar call in package parser receives as its quote argument the byte the literal was opened with (it derives, through parameters, from the first byte of the input), not a constant — with '\"' hard-wired, a single-quoted value with an escaped apostrophe no longer parses and one with a double quote is silently changed, so the keyword value that was indexed cannot be asked for in that quoting style",
+			Check: func(c *Ctx) {
+				n := 0
+				for _, fn := range c.P.FuncsInPkg("parser") {
+					for _, call := range CallsIn(fn, Callee("strconv.UnquoteChar")) {
+						n++
+						q := Arg(call, 1)
+						if _, isK := ConstInt(q); isK {
+							c.Violation("prov:UnquoteChar:quote:"+FuncName(fn), call.Pos(), "%s calls strconv.UnquoteChar with a constant quote byte: literals opened with another quote are unquoted by the wrong rules", FuncName(fn))
+							continue
+						}
+						own := c.P.DerivesFromIP(q, func(v ssa.Value) bool {
+							switch x := v.(type) {
+							case *ssa.Index:
+								k, isK := ConstInt(x.Index)
+								return isK && k == 0
+							case *ssa.UnOp:
+								if ia, ok := x.X.(*ssa.IndexAddr); ok {
+									k, isK := ConstInt(ia.Index)
+									return isK && k == 0
+								}
+							}
+							return false
+						})
+						if own {
+							c.Site(call.Pos(), "%s: the quote byte is the literal's first byte", FuncName(fn))
+						} else {
+							c.Violation("prov:UnquoteChar:quote:"+FuncName(fn), call.Pos(), "%s calls strconv.UnquoteChar with a quote byte that is not the first byte of the literal being unquoted", FuncName(fn))
+						}
+					}
+				}
+				if n == 0 {
+					c.Site(token.NoPos, "package parser does not call strconv.UnquoteChar (nothing to check)")
+				}
+			}},
 		{Prop: "C11", ID: "C11.1", Engine: "PAIR(char classes)", Floor: 2,
 			Desc: "word characters agree: the unicode predicates that continue a word are identical on the index side (TextTokenizer.Tokenize) and both query sides (parseSeqQLText, legacy isIndexed closure); the tokenizer's ASCII table is a-z A-Z 0-9 _ *; both query sides add exactly '_' and '*'",
 			Check: func(c *Ctx) {
@@ -585,4 +639,47 @@ func c11() []*Ob {
 				}
 			}},
 	}
+}
+
+// constLoopRange: fn consists of one counting loop `for i := lo; i <= hi (or i < hi+1); i++` with constant bounds;
+// returns the inclusive range of i for which the body runs.
+func constLoopRange(fn *ssa.Function) (lo, hi int64, ok bool) {
+	ls := Loops(fn)
+	if len(ls) != 1 {
+		return 0, 0, false
+	}
+	iff, isIf := ls[0].Header.Instrs[len(ls[0].Header.Instrs)-1].(*ssa.If)
+	if !isIf {
+		return 0, 0, false
+	}
+	bo, isBo := iff.Cond.(*ssa.BinOp)
+	if !isBo {
+		return 0, 0, false
+	}
+	phi, isPhi := bo.X.(*ssa.Phi)
+	bound, isK := ConstInt(bo.Y)
+	if !isPhi || !isK || len(phi.Edges) != 2 {
+		return 0, 0, false
+	}
+	var init int64
+	haveInit, step := false, false
+	for _, e := range phi.Edges {
+		if k, isK := ConstInt(e); isK {
+			init, haveInit = k, true
+		} else if inc, isInc := e.(*ssa.BinOp); isInc && inc.Op == token.ADD && inc.X == ssa.Value(phi) {
+			if k, isK := ConstInt(inc.Y); isK && k == 1 {
+				step = true
+			}
+		}
+	}
+	if !haveInit || !step {
+		return 0, 0, false
+	}
+	switch bo.Op {
+	case token.LEQ:
+		return init, bound, true
+	case token.LSS:
+		return init, bound - 1, true
+	}
+	return 0, 0, false
 }
